@@ -154,8 +154,13 @@ func (t *tree) beginTag() ast.Node {
 		return t.parseCall(token)
 	case itemLiteral:
 		t.expect(itemRightDelim, "literal")
-		literalText := t.expect(itemText, "literal")
-		n := &ast.RawTextNode{literalText.pos, []byte(literalText.val)}
+		// an empty literal block has no text token.
+		var n ast.Node
+		if literalText := t.next(); literalText.typ == itemText {
+			n = &ast.RawTextNode{literalText.pos, []byte(literalText.val)}
+		} else {
+			t.backup()
+		}
 		t.expect(itemLeftDelim, "literal")
 		t.expect(itemLiteralEnd, "literal")
 		t.expect(itemRightDelim, "literal")
